@@ -299,6 +299,9 @@ class Effects:
                         return [Use(WRITE, p, "random engine/distribution invocation")]
                     return [Use(READ, p, "callable invoked")]
                 # argument of a callable: by non-const ref only if no cast in between
+                t = qt(e)
+                if "mt19937" in t or "mersenne" in t or "linear_congruential" in t or "random_engine" in t:
+                    return [Use(WRITE, p, "random engine consumed by a distribution")]
                 return [Use(ESCAPE, p, "lvalue argument to callable")]
             if name in ("operator==", "operator!=", "operator<", "operator>", "operator<=", "operator>=", "operator+",
                         "operator-", "operator!", "operator&&", "operator||", "operator/", "operator%", "operator~",
@@ -460,6 +463,17 @@ class Effects:
             ptypes = split_params((call.get("ctorType") or {}).get("qualType", ""))
         if name in PASS_THROUGH and not ci["is_member"]:
             return self.uses(call, func, aliasing, depth + 1, seen)
+        if name == "async" and not ci["is_member"]:
+            # std::async decay-copies its arguments; only a pointer argument exposes storage to the thread
+            if not aliasing:
+                return [Use(READ, call, "decay-copied by std::async")]
+            m = async_callee(call)
+            if m is not None and m.get("kind") == "CXXMethodDecl":
+                ft = qt(m)
+                if "const" in ft[ft.rfind(")"):]:
+                    return [Use(READ, call, "object of const member function run by std::async")]
+                return [Use(WRITE, call, "object of non-const member function run by std::async")]
+            return [Use(ESCAPE, call, "pointer handed to a thread (std::async)")]
         if ptypes is not None and idx < len(ptypes):
             pm = param_mode(ptypes[idx])
             if pm in ("constref", "constptr"):
@@ -590,6 +604,31 @@ class Effects:
                         changed = True
         self._trans = {k: {"writes": trans_w[k], "calls": trans_c[k]} for k in trans_w}
         return self._trans
+
+
+def async_callee(call):
+    """For a call to std::async: the member function declaration named by a `&C::m` argument, a LambdaExpr
+    node, or None."""
+    ci = callee_info(call)
+    for a in ci["args"]:
+        x = strip(a, casts=True)
+        if x.get("kind") == "UnaryOperator" and x.get("opcode") == "&":
+            y = strip(children(x)[0])
+            if y.get("kind") == "DeclRefExpr":
+                d = ref_decl(y)
+                if d is not None and d.get("kind") in ("CXXMethodDecl", "FunctionDecl"):
+                    return d
+        if x.get("kind") == "LambdaExpr":
+            return x
+        if x.get("kind") == "DeclRefExpr":
+            d = ref_decl(x)
+            if d is not None and d.get("kind") == "FunctionDecl":
+                return d
+            if d is not None and d.get("kind") == "VarDecl":
+                init = children(d)
+                if init and strip(init[-1], casts=True).get("kind") == "LambdaExpr":
+                    return strip(init[-1], casts=True)
+    return None
 
 
 def _all_lambdas(f):
